@@ -226,7 +226,9 @@ Init ==
   /\ delivered = [n \in Honest |-> <<>>]
   /\ hist = [n \in Honest |-> InitHist]
 
-HonestVoters(b) == {v.author : v \in {w \in votes : w.blk = b}}
+\* votes the adversary can use: those that travelled on the wire (a leader's own vote is handled locally and becomes
+\* public only inside the QC of the block it proposes next)
+HonestVoters(b) == {v.author : v \in {w \in votes : w.blk = b /\ (w.to # w.author \/ \E p \in proposals : Par(p.blk) = b)}}
 Certified(b)    == b = Genesis \/ SumStake(HonestVoters(b) \cup Byz) >= Quorum
 \* a TC [round, hqr] the adversary (or an honest aggregator) can exhibit
 ConstructibleTC(tc) ==
@@ -387,7 +389,7 @@ StoredClosedUnderParent == \A n \in Honest : \A b \in ns[n].stored : Par(b) = Ge
 
 \* what the global model establishes and the local model assumes (DESIGN 2.2)
 CertSafe ==
-  LET C == {b \in Universe : Certified(b) /\ (b = Genesis \/ HonestVoters(b) # {})} IN
+  LET C == {b \in {w.blk : w \in votes} : Certified(b)} \cup {Genesis} IN
   /\ \A c, d \in C : Rnd(c) = Rnd(d) => c = d
   /\ \A b1 \in C : (b1 # Genesis /\ Rnd(b1) = Rnd(Par(b1)) + 1 /\ Par(b1) # Genesis) =>
         \A c \in C : Rnd(c) >= Rnd(Par(b1)) => Ancestor(Par(b1), c)
